@@ -1109,6 +1109,30 @@ class Models:
                 # only the decimal class has these; fractions, ints and floats do not
                 self.flag("missing-attribute", node, f"{kind} number has no attribute {attr}")
                 self.I.raise_("AttributeError", node)
+            cv = self.st.norm(v.rf)
+            if cv.is_const():
+                # a constant decimal: its number of fractional digits / the exponent of its leading digit
+                q_ = cv.const_value()
+                d_, n2, n5 = q_.denominator, 0, 0
+                while d_ % 2 == 0:
+                    d_ //= 2
+                    n2 += 1
+                while d_ % 5 == 0:
+                    d_ //= 5
+                    n5 += 1
+                if d_ == 1:
+                    if attr == "precision":
+                        return self.num_const(max(n2, n5), "int")
+                    if q_ != 0:
+                        m_ = 0
+                        a_ = abs(q_)
+                        while a_ >= 10:
+                            a_ /= 10
+                            m_ += 1
+                        while a_ < 1:
+                            a_ *= 10
+                            m_ -= 1
+                        return self.num_const(m_, "int")
             return Num(self.ufn(attr, v.rf), "int")
         if attr == "adjusted":
             return NativeV(lambda a, k, n: Num(v.rf, v.kind), "adjusted")
